@@ -364,6 +364,25 @@ class Check:
         print(f"VIOLATION property={self.pid} replay={path}{tail}", flush=True)
         return path
 
+    def replay_known_findings(self, reproduces):
+        """For every OPEN finding listed for this property run its witness through
+        `reproduces(finding) -> bool`; print the KNOWN-FINDING line when it still fails. Fixed entries
+        suppress nothing: their witnesses belong in the corpus and fail as ordinary violations."""
+        for k in load_known():
+            if k.get("status") != "open" or self.pid not in k.get("properties", [k.get("property")]):
+                continue
+            try:
+                still = reproduces(k)
+            except MachineryError:
+                raise
+            except Exception as e:  # noqa: BLE001
+                raise MachineryError(f"witness of finding {k.get('id')} could not be run: {e}")
+            self.count("known_findings_replayed")
+            if still:
+                self.known_finding(k["id"], k["what"])
+            else:
+                self.notes.append(f"listed finding {k['id']} did not reproduce on this tree")
+
     def known_finding(self, fid, what):
         line = f"KNOWN-FINDING: property={self.pid} {fid} {what}"
         if line not in self.known_hits:
